@@ -191,8 +191,12 @@ def gen_dts(rnd, N, maxratio):
     """N sampling intervals in [1e-2, 1e2]; neighbouring ratio at most maxratio"""
     c = 10 ** rnd.uniform(-2, 2)
     mode = rnd.random()
-    if mode < 0.3:           # nearly uniform sampling
+    if mode < 0.2:           # nearly uniform sampling
         return [min(1e2, max(1e-2, c * rnd.uniform(0.9, 1.1))) for _ in range(N)]
+    if mode < 0.3:           # uniform sampling with timing jitter: neighbouring intervals differ by a relative 1e-9 … 1e-2
+        #                      (absolute differences from ~1e-11 s to ~1 s: any absolute "are the knots uniform?" threshold is crossed; seed C14e)
+        j = 10 ** rnd.uniform(-9, -2)
+        return [min(1e2, max(1e-2, c * (1.0 + j * rnd.uniform(-1, 1)))) for _ in range(N)]
     if mode < 0.4:           # alternating between two rates at the extreme neighbouring ratio of the quantifier
         lo = 10 ** rnd.uniform(-2, 2 - math.log10(maxratio))
         return [lo if (k % 2 == 0) else lo * maxratio for k in range(N)]
